@@ -66,6 +66,7 @@ type World struct {
 	stable        map[string]bool
 	stableOnce    sync.Once
 	immut         map[string]bool
+	FactResult    map[string]factRes // pkgpath::specfn -> evaluation of a closed fact on the real code
 	immutOnce     sync.Once
 }
 
